@@ -1,11 +1,14 @@
 pub mod c01;
+pub mod c02;
 pub mod c03;
 pub mod c04;
 pub mod c05;
 pub mod c06;
+pub mod c07;
 pub mod c08;
 pub mod c09;
 pub mod c10;
+pub mod c11;
 pub mod c12;
 pub mod c14;
 pub mod common;
@@ -15,13 +18,16 @@ use crate::engine::*;
 pub fn run(ctx: &RunCtx) -> i32 {
     match ctx.id.as_str() {
         "C01" => c01::prop().run(ctx),
+        "C02" => c02::run(ctx),
         "C03" => c03::prop().run(ctx),
         "C04" => c04::run(ctx),
         "C05" => c05::prop().run(ctx),
         "C06" => c06::run(ctx),
+        "C07" => c07::run(ctx),
         "C08" => c08::prop().run(ctx),
         "C09" => c09::prop().run(ctx),
         "C10" => c10::run(ctx),
+        "C11" => c11::run(ctx),
         "C12" => c12::prop().run(ctx),
         "C14" => c14::run(ctx),
         other => {
@@ -34,13 +40,16 @@ pub fn run(ctx: &RunCtx) -> i32 {
 pub fn replay(id: &str, v: &serde_json::Value) -> CaseResult {
     match id {
         "C01" => c01::prop().replay(v),
+        "C02" => c02::replay(v),
         "C03" => c03::prop().replay(v),
         "C04" => c04::replay(v),
         "C05" => c05::prop().replay(v),
         "C06" => c06::replay(v),
+        "C07" => c07::replay(v),
         "C08" => c08::prop().replay(v),
         "C09" => c09::prop().replay(v),
         "C10" => c10::replay(v, false),
+        "C11" => c11::replay(v),
         "C12" => c12::prop().replay(v),
         "C14" => c14::replay(v),
         _ => Err(Failure { message: format!("unknown property '{}' in replay file", id), replay: v.clone() }),
